@@ -580,7 +580,16 @@ def gen_directive(d, sim):
         return dict(dir="bigendian", on=not sim.st.big if d.bool(0.8) else sim.st.big)
     if k == "packing":
         return dict(dir="packing", on=not sim.st.packing if d.bool(0.8) else sim.st.packing)
-    form = d.weighted([(3, "range"), (3, "one"), (2, "str"), (1, "reset")])
+    form = d.weighted([(3, "range"), (3, "one"), (2, "str"), (1, "reset"), (1, "file"), (3, "codepage")])
+    if form == "file":
+        return dict(dir="charset", op=["file", d.choice([1, 3, 5, 7, 129, 255]), d.int(0, 255)])
+    if form == "codepage":
+        names = sorted(sim.st.pages)
+        name = d.choice(["STANDARD", "CPA", "CPB", "CPC"])
+        di = dict(dir="codepage", name=name)
+        if d.bool(0.4):
+            di["src"] = d.choice(names)
+        return di
     if form == "reset":
         return dict(dir="charset", op=["reset"])
     if form == "one":
@@ -734,7 +743,11 @@ def render_directive(di, syntax):
     k = di["dir"]
     if k in ("padding", "bigendian", "packing"):
         return "\t%s\t%s" % (k, "on" if di["on"] else "off")
+    if k == "codepage":
+        return "\tcodepage\t%s%s" % (di["name"], "," + di["src"] if di.get("src") else "")
     op = di["op"]
+    if op[0] == "file":
+        return "\tcharset\t\"cs%d_%d.tab\"" % (op[1], op[2])
     if op[0] == "reset":
         return "\tcharset"
     if op[0] == "one":
@@ -892,6 +905,10 @@ def analyse(case, drop_invalid):
         if "dir" in it:
             st.directive(it)
             L.append(render_directive(it, syntax))
+            if it["dir"] == "codepage":
+                pl.tags.append("codepage-switch")
+            elif it["dir"] == "charset" and it["op"][0] == "file":
+                pl.tags.append("charset-from-file")
             continue
         start = t["base"] + idx * t["slot"]
         limit = start + t["slot"]
@@ -982,9 +999,20 @@ PC_RE = re.compile(r"^P(\d+)=([0-9A-Fa-f]+)\s*$", re.M)
 LAB_RE = re.compile(r"^(LB\d+_\d+)=([0-9A-Fa-f]+)\s*$", re.M)
 
 
+TAB_RE = re.compile(r'charset\t"cs(\d+)_(\d+)\.tab"')
+
+
+def plan_files(src):
+    """the translation table files a program names (CHARSET "file")"""
+    files = {"t.asm": src}
+    for m in TAB_RE.finditer(src):
+        files["cs%s_%s.tab" % m.groups()] = dm.charset_file(int(m.group(1)), int(m.group(2)))
+    return files
+
+
 def run_plan(pl):
     src = "\n".join(pl.lines) + "\n"
-    r = asl.assemble({"t.asm": src}, args=("-n",))
+    r = asl.assemble(plan_files(src), args=("-n",))
     return src, r
 
 
@@ -993,7 +1021,7 @@ def asan_witness(src, r):
     (Statements that overrun the code buffer corrupt the heap silently in the plain build.)"""
     if int(engine.digest(src), 16) % ASAN_EVERY:
         return None
-    r2 = asl.assemble({"t.asm": src}, args=("-n",), flavour="asan", timeout=60.0)
+    r2 = asl.assemble(plan_files(src), args=("-n",), flavour="asan", timeout=60.0)
     if r2.timed_out or r2.signal in (24, 9):
         return None
     if r2.status == 77 or "AddressSanitizer" in r2.err or "runtime error" in r2.err or r2.signal:
